@@ -352,7 +352,7 @@ def run_case(case, observe=None):
 
 def plan(tier, seed):
     quick = tier == "quick"
-    return [("gen", {"shard": i, "n": 30 if quick else 1000, "max_ops": 25 if quick else 50}) for i in range(16)]
+    return [("gen", {"shard": i, "n": 100 if quick else 1000, "max_ops": 25 if quick else 50}) for i in range(16)]
 
 
 def run_task(name, kw, ctx):
